@@ -17,7 +17,11 @@ run_suite() { # $1 = label ; prints failing test names (after one solo retry) on
   local failed still=""
   failed=$(grep -E "^\s+(FAIL|TIMEOUT|SIGABRT|SIGSEGV)" "$out/.run.log" | awk '{print $(NF-1)"::"$NF}' | sort -u)
   for t in $failed; do
-    if cargo nextest run --workspace --offline -E "test(=${t##*::})" >>"$log" 2>&1; then :; else still="$still $t"; fi
+    ok=0
+    for attempt in 1 2 3; do
+      if cargo nextest run --workspace --offline -E "test(=${t##*::})" >>"$log" 2>&1; then ok=1; break; fi
+    done
+    [ $ok -eq 1 ] || still="$still $t"
   done
   if ! grep -q "tests run:" "$out/.run.log"; then still="$still BUILD-FAILED"; fi
   echo $still
